@@ -31,6 +31,17 @@ CLAIMED.update({
          "Programs without seeding are injective in the ambient generator state, a constant reseed forgets it, a run that first seeds with the user's random_state is a function of that seed alone; obligations decided on the regenerated table: no literal seed, no literal reaching a global seed through a constructor attribute, all seed arguments user-driven, no unknown RNG source, run seeds before its first draw. Dynamic twin: observed numpy.random call sites are a subset of the table; same random_state twice is bit-identical, different ones differ; after every library operation the global stream still depends on the ambient seed.",
          "DESIGN.md §6 C09"),
 })
+CLAIMED.update({
+ "C05": ("Lean 4 proof at ℝ for EVERY metric oracle (no monotonicity assumed) over the Sc-polymorphic model of Reweighter.run + exact Rat / bit-exact Float correspondence with a table-driven oracle injected into the real Reweighter, and replay of real runs",
+         "For every oracle, every beta_prev in [0,1]: the ESS upper limit lies in [beta_prev,1] and, if it moved, has ESS >= target (loop invariant; 14 halvings suffice so fuel never decides); ESS mode: beta in [beta_prev, beta_upper] and advancing implies ESS >= target (the bisection branch is dead code); volume mode: never beyond the ESS-limited temperature; in all branches the returned weights, recorded ESS and recorded evidence are the oracle's at the SAME beta that is written to state; schedule starts at 0 and is monotone in [0,1]. The real Reweighter with an injected table oracle must reproduce the model's decisions, oracle-call sequence and state exactly.",
+         "DESIGN.md §6 C05"),
+ "C13": ("Lean 4 proof over dispatch/accounting tables regenerated from source (AST translator G6) + exact paired-run and counting-likelihood correspondence",
+         "For every pool setting dispatch succeeds; if a vectorised likelihood is pointwise the scalar one and a pool's map preserves input order, every strategy hands the algorithm identical values (C13_dispatch, C13_transparent); for any sequence of warm-up and mutation iterations calls == points evaluated, given that each counting site advances by the size of the batch evaluated there (obligation decided on the regenerated table). Real seeded runs under scalar / vectorised / reversed / shuffled / threaded / lazy pools and pool=1 must be bit-identical and an instrumented likelihood must agree with state['calls'] and the model after every iteration.",
+         "DESIGN.md §6 C13"),
+ "C20": ("Lean 4 proof at ℝ (Cauchy-Schwarz on lists; numpy's linear percentile on a merge-sorted list; Mathlib matrices for the volume metric) + exact Rat, bit-exact Float and toleranced correspondence",
+         "ESS in [1,N], scale invariant, N for uniform weights, compute_ess = ESS/N and shift invariant; trimming returns exactly the upper set {w_i >= theta} with samples and weights selected by one mask, normalised, ESS(trimmed) >= ess*ESS(all), maximal on the grid, and the loop always stops by i = 0; the volume-variation metric is non-negative, weight-scale invariant and invariant under invertible affine maps when the weighted covariance has full rank (the regularised branch is not, stated). np.percentile / np.linspace are matched bit for bit by the model; real trim_weights is compared exactly on dyadic inputs.",
+         "DESIGN.md §6 C20"),
+})
 NOT_YET = {}
 props = [json.loads(l) for l in open(os.path.join(HERE, "properties.jsonl"))]
 checks, na = [], []
